@@ -97,7 +97,7 @@ class Ctx:
         return d, os.path.basename(module_rel), os.path.basename(cfg_rel)
 
     def tlc(self, name, module_rel, cfg_rel, constants=None, dump=True, workers=None, timeout=1800,
-            heap="10g", min_states=2, simulate=None, extra_files=(), env_extra=None):
+            heap="10g", min_states=2, simulate=None, extra_files=(), env_extra=None, tlc_seed=None):
         """Run TLC on a model; returns dict(states, distinct, dump, out). A violated invariant of the
         model itself means the specification is wrong: Broken, not a verdict about the code."""
         d, mod, cfg = self._prep(name, module_rel, cfg_rel, constants, extra_files)
@@ -111,6 +111,8 @@ class Ctx:
             dumpf += ".dump"
         if simulate:
             cmd += ["-simulate", simulate]
+        if tlc_seed is not None:
+            cmd += ["-seed", str(tlc_seed)]
         cmd.append(mod)
         t = time.time()
         env = dict(os.environ)
